@@ -1,6 +1,238 @@
 import Driver.Util
-open Lean
+import Driver.Status
+import DoitModel.Model.Cmds
+open Lean DoitModel.Status DoitModel.Cmds
 namespace Driver.P13
-/-- handler for requests with `"model": "c13"` (property-specific monitors / model queries of C13; stub until built) -/
-def handle (_ : Json) : Json := Driver.err "model not implemented"
+/-! requests `{"model":"c13","mode":"model"|"monitor","fixed":bool,"npaths":n,"checker":"md5"|"ts",
+   "tasks":[{"deps":[p…],"targets":[p…],"uptodate":[item…],"task_dep":[t…],"setup":[t…],"sub_of":t|null}…],
+   "default":null|[t…],"ops":[op…]}`   (task i of the list is name `i`; any other number is an unknown name)
+
+ops: `["edit",p,size,cid] ["touch",p] ["delete",p] ["checker","md5"|"ts"]
+      ["forget",{"names":[t…],"sub":b,"all":b,"dd":b}] ["ignore",[t…]] ["reset",[t…]]
+      ["run",{"order":[t…],"always":b,"plan":{"<t>":{"ok":b,"writes":[[p,size,cid]…],"res":k|null}}}]`
+
+model mode, per op: `target` (what the command resolved its arguments to), `out` (run: `[t, outcome]` in order),
+`reset` (`[t, "processed"|"skip"|"failed"|"crash"]`), `bad` (run: a task was handed over before a needed dependency),
+`crashed`, `clock`, `db` (logical dump after the op).
+
+monitor mode: the ops carry what the implementation was *seen* to do (`["reset",[t…],{"fs":[null|[mtime,size,cid]…],
+"pre":[rec…],"post":[rec…]}]`); the answer holds what the *property* demands, computed from the documented
+semantics only (never from a DB): `spec` sets of forget / ignore / reset-dep, the tasks that must be reported
+ignored / must not execute in a run given the ignore marks placed and not yet forgotten, and for reset-dep the
+verdict of the record predicate on the implementation's own records. -/
+
+def parsePlan (j : Json) (t : Nat) : Plan :=
+  let p := jobj j (toString t)
+  ⟨if jhas p "ok" then jbool p "ok" else true, Driver.Status.parseWrites (jobj p "writes"), Driver.Status.optNat (jobj p "res")⟩
+
+def optList (j : Json) : Option (List Nat) :=
+  match j with
+  | .arr a => some (a.toList.map asNat)
+  | _ => none
+
+structure TaskJ where
+  sdef : TaskDef
+  taskDep : List Nat
+  setup : List Nat
+  subOf : Option Nat
+
+def parseTask (j : Json) : TaskJ :=
+  ⟨Driver.Status.parseDef j, jnats j "task_dep", jnats j "setup", Driver.Status.optNat (jobj j "sub_of")⟩
+
+def mkGraph (ts : List TaskJ) : Graph :=
+  let arr := ts.toArray
+  { names := List.range ts.length
+    taskDep := fun t => match arr[t]? with | some x => x.taskDep | none => []
+    setup := fun t => match arr[t]? with | some x => x.setup | none => []
+    subOf := fun t => match arr[t]? with | some x => x.subOf | none => none }
+
+def mkDefs (ts : List TaskJ) : Nat → TaskDef :=
+  let arr := ts.toArray
+  fun t => match arr[t]? with | some x => x.sdef | none => TaskDef.empty
+
+def parseArgs (j : Json) : ForgetArgs := ⟨jnats j "names", jbool j "sub", jbool j "all", jbool j "dd"⟩
+
+def parseCk (s : String) : Checker := if s = "ts" then .ts else .md5
+
+def parseOp (dflt : Option (List Nat)) (j : Json) : Option COp :=
+  match asArr j with
+  | [tag, a] =>
+    match asStr tag with
+    | "touch" => some (.touch (asNat a))
+    | "delete" => some (.delete (asNat a))
+    | "checker" => some (.checker (parseCk (asStr a)))
+    | "forget" => some (.forget (parseArgs a) dflt)
+    | "ignore" => some (.ignore ((asArr a).map asNat))
+    | "reset" => some (.reset ((asArr a).map asNat))
+    | "run" => some (.run (jnats a "order") (jbool a "always") (parsePlan (jobj a "plan")))
+    | _ => none
+  | [tag, a, _] =>
+    match asStr tag with
+    | "forget" => some (.forget (parseArgs a) dflt)
+    | "ignore" => some (.ignore ((asArr a).map asNat))
+    | "reset" => some (.reset ((asArr a).map asNat))
+    | "run" => some (.run (jnats a "order") (jbool a "always") (parsePlan (jobj a "plan")))
+    | _ => none
+  | [tag, p, s, c] => if asStr tag = "edit" then some (.edit (asNat p) (asNat s) (asNat c)) else none
+  | _ => none
+
+def targetJ : Target → Json
+  | .tasks l => mkArr [Json.str "tasks", ofNats l]
+  | .everything => mkArr [Json.str "everything"]
+  | .nothing => mkArr [Json.str "nothing"]
+  | .notATask n => mkArr [Json.str "notATask", toJson n]
+  | .crash => mkArr [Json.str "crash"]
+  | .fuel => mkArr [Json.str "fuel"]
+
+def outcomeStr : Outcome → String
+  | .ignored => "ignored"
+  | .upToDate => "up-to-date"
+  | .ok => "ok"
+  | .failed => "fail"
+  | .saveMissing => "save-missing"
+  | .unmet => "unmet"
+  | .error => "error"
+  | .crash => "crash"
+
+def dbJ (ntasks npaths : Nat) (s : St) : Json := mkArr ((List.range ntasks).map fun t => Driver.Status.rcdJ npaths (s.rcd t))
+
+def resetTrace (s : St) : List Nat → St × List Json
+  | [] => (s, [])
+  | t :: rest =>
+    let s' := resetDep true s t
+    let (s'', js) := resetTrace s' rest
+    (s'', mkArr [toJson t, Json.str (Driver.Status.resetObs true s t s')] :: js)
+
+def modelStep (fixed : Bool) (g : Graph) (ntasks npaths : Nat) (s : St) (o : COp) : St × Json :=
+  let s' := stepC fixed g s o
+  let extra : List (String × Json) :=
+    match o with
+    | .forget a dflt => [("target", targetJ (forgetTarget fixed g a dflt))]
+    | .ignore names => [("target", targetJ (ignoreTarget g names))]
+    | .reset names =>
+      [("target", targetJ (resetTarget g names)),
+       ("reset", match resetTarget g names with
+                 | .tasks l => mkArr (resetTrace s l).2
+                 | _ => mkArr [])]
+    | .run order always plan =>
+      let rs := runAll fixed always g plan s order
+      [("out", mkArr (rs.out.reverse.map fun (t, oc) => mkArr [toJson t, Json.str (outcomeStr oc)])),
+       ("bad", Json.bool rs.bad)]
+    | _ => []
+  (s', Json.mkObj (extra ++ [("crashed", Json.bool s'.crashed), ("clock", toJson s'.clock), ("db", dbJ ntasks npaths s')]))
+
+/-! ### monitor side -/
+
+def parseFState (j : Json) : Option FState :=
+  match asArr j with
+  | [tag, m, s, c] => if asStr tag = "md5" then some (.md5 (asNat m) (asNat s) (asNat c)) else none
+  | [tag, m] => if asStr tag = "ts" then some (.ts (asNat m)) else none
+  | _ => none
+
+def parseValues (j : Json) : Option Values :=
+  match j with
+  | .null => none
+  | _ => some ⟨jbool j "runOnce", Driver.Status.optNat (jobj j "cfg"),
+               (jarr j "res").map fun x => match asArr x with
+                 | [t, r] => (asNat t, Driver.Status.optNat r)
+                 | _ => (0, none)⟩
+
+/-- a record of the implementation's logical dump (canonical form of `statuslib.canon_impl_db`) -/
+def parseRcd (j : Json) : Rcd :=
+  let fst : List (Nat × FState) := (jarr j "fstate").filterMap fun x => match asArr x with
+    | [p, st] => (parseFState st).map fun v => (asNat p, v)
+    | _ => none
+  { values := parseValues (jobj j "values")
+    result := Driver.Status.optNat (jobj j "result")
+    checker := match jobj j "checker" with
+      | .str s => some (parseCk s)
+      | _ => none
+    deps := optList (jobj j "deps")
+    fstate := fun p => DoitModel.alookup p fst
+    ign := jbool j "ign" }
+
+def parseFS (j : Json) : FS :=
+  let l : List (Option FMeta) := (asArr j).map fun x => match asArr x with
+    | [m, s, c] => some ⟨asNat m, asNat s, asNat c⟩
+    | _ => none
+  let arr := l.toArray
+  fun p => match arr[p]? with | some x => x | none => none
+
+/-- monitor ghost: the ignore marks the documented semantics says are in force -/
+structure Ghost where
+  marks : List Nat
+
+def specJ : Option (List Nat) → Json
+  | none => Json.str "everything"
+  | some l => ofNats (Driver.Status.sortNats l.eraseDups)
+
+def monStep (g : Graph) (defs : Nat → TaskDef) (ck : Checker) (dflt : Option (List Nat)) (gh : Ghost × Checker)
+    (j : Json) : (Ghost × Checker) × Json :=
+  match parseOp dflt j with
+  | some (.forget a d) =>
+    match (if a.all then none else firstUnknown g ((selTasks a.names d).getD [])) with
+    | some n => (gh, Json.mkObj [("unknown", toJson n)])
+    | none =>
+      let sp := forgetSpec g a d
+      let marks := match sp with | none => [] | some l => gh.1.marks.filter fun t => !l.contains t
+      ((⟨marks⟩, gh.2), Json.mkObj [("spec", specJ sp), ("closed", Json.bool (forgetSpecClosed g a d))])
+  | some (.ignore names) =>
+    match firstUnknown g names with
+    | some n => (gh, Json.mkObj [("unknown", toJson n)])
+    | none =>
+      let sp := withSubs g names
+      ((⟨gh.1.marks ++ sp⟩, gh.2), Json.mkObj [("spec", specJ (some sp))])
+  | some (.checker c) => ((gh.1, c), Json.mkObj [])
+  | some (.run _ _ _) =>
+    let hard := ignClosure g defs gh.1.marks
+    let soft := g.names.filter fun t => (g.setup t).any fun d => hard.contains d
+    (gh, Json.mkObj [("ign_hard", ofNats (Driver.Status.sortNats hard.eraseDups)), ("ign_setup", ofNats soft),
+                     ("marks", ofNats (Driver.Status.sortNats gh.1.marks.eraseDups)),
+                     ("closed", Json.bool (ignClosedB g defs hard)),
+                     ("hard_deps", mkArr (g.names.map fun t => ofNats (hardDeps g defs t)))])
+  | some (.reset names) =>
+    match firstUnknown g names with
+    | some n => (gh, Json.mkObj [("unknown", toJson n)])
+    | none =>
+      let sp := if names.isEmpty then g.names else withSubs g names
+      let info := match asArr j with | [_, _, i] => i | _ => Json.null
+      let fs := parseFS (jobj info "fs")
+      let pre := (jarr info "pre").toArray
+      let post := (jarr info "post").toArray
+      let postR : Nat → Rcd := fun t => match post[t]? with | some r => parseRcd r | none => Rcd.empty
+      let preR : Nat → Rcd := fun t => match pre[t]? with | some r => parseRcd r | none => Rcd.empty
+      let resOf : Nat → Option Nat := fun t => (postR t).result
+      let per := sp.eraseDups.map fun t =>
+        Json.mkObj [("t", toJson t), ("missing", Json.bool ((defs t).deps.any (depMissing fs))),
+                    ("rec_ok", Json.bool (resetRecOk gh.2 (defs t) (preR t) (postR t) fs)),
+                    ("status_ok", Json.bool (resetStatusOk gh.2 (defs t) (postR t) fs resOf)),
+                    ("early", Json.bool (earlyRun (defs t) (postR t).getValues resOf fs))]
+      let _ := ck
+      (gh, Json.mkObj [("spec", specJ (some sp)), ("per", mkArr per)])
+  | some _ => (gh, Json.mkObj [])
+  | none => (gh, Driver.err "bad op")
+
+def handle (j : Json) : Json :=
+  let ts := (jarr j "tasks").map parseTask
+  let g := mkGraph ts
+  let defs := mkDefs ts
+  let ntasks := ts.length
+  let npaths := jnat j "npaths"
+  let fixed := if jhas j "fixed" then jbool j "fixed" else true
+  let dflt := optList (jobj j "default")
+  let ck := parseCk (jstr j "checker")
+  if jstr j "mode" = "monitor" then
+    let (_, outs) := (jarr j "ops").foldl (fun (acc : (Ghost × Checker) × List Json) o =>
+      let (gh', out) := monStep g defs ck dflt acc.1 o
+      (gh', out :: acc.2)) ((⟨[]⟩, ck), [])
+    Json.mkObj [("steps", mkArr outs.reverse), ("wf", Json.bool g.WF)]
+  else
+    match (jarr j "ops").mapM (parseOp dflt) with
+    | none => Driver.err "bad op"
+    | some ops =>
+      let (_, outs) := ops.foldl (fun (acc : St × List Json) o =>
+        let (s', out) := modelStep fixed g ntasks npaths acc.1 o
+        (s', out :: acc.2)) (initC defs ck, [])
+      Json.mkObj [("steps", mkArr outs.reverse), ("wf", Json.bool g.WF)]
+
 end Driver.P13
